@@ -97,6 +97,7 @@ struct FamilySpec {
         if (kind == "density") s += ":rep=" + std::to_string(rep) + ":w=" + std::to_string(width) + ":word=" + std::to_string(word) + ":seam=" + std::to_string(seam) + (top ? ":top=" + std::to_string(top) : "");
         else if (kind == "chunktail") s += ":rep=" + std::to_string(rep) + ":w=" + std::to_string(width) + ":word=" + std::to_string(word) + (n ? ":n=" + std::to_string(n) : "");
         else if (kind == "longrun") s += ":n=" + std::to_string(n) + ":seam=" + std::to_string(seam) + ":rep=" + std::to_string(rep) + ":w=" + std::to_string(width) + ":word=" + std::to_string(word);
+        else if (kind == "irr") s += ":rep=" + std::to_string(rep) + ":word=" + std::to_string(word);
         else if (kind == "unitop") s += ":word=" + std::to_string(word);
         else if (kind == "randtop") s += ":rep=" + std::to_string(rep) + ":word=" + std::to_string(word);
         else if (kind == "tworuns") s += ":n=" + std::to_string(n) + ":seam=" + std::to_string(seam) + ":rep=" + std::to_string(rep) + ":w=" + std::to_string(width) + ":word=" + std::to_string(word);
@@ -252,6 +253,18 @@ template<typename K> bool generate_family(const FamilySpec &f, size_t eps, std::
             cur = keys.back();
         }
         if (cur > hi) return false;
+    } else if (f.kind == "irr") {
+        // exactly `rep` keys with hashed gaps: 1 in 6 a duplicate, 1 in 16 a power of two up to 2^20, 1 in 40 a jump of thousands, else
+        // 1..40; used for every n in a contiguous window, so that every residue of n and of the segment counts occurs
+        auto mix = [](uint64_t x) { x ^= x >> 33; x *= 0xff51afd7ed558ccdull; x ^= x >> 33; x *= 0xc4ceb9fe1a85ec53ull; x ^= x >> 33; return x; };
+        W cur = std::is_floating_point_v<K> ? W(2000) : W(1000); keys.push_back(cur);
+        for (long i = 1; i < f.rep; ++i) {
+            uint64_t h = mix(uint64_t(i) * 0x9E3779B97F4A7C15ull + uint64_t(f.word) * 1000003ull);
+            W g = h % 6 == 0 ? 0 : (h % 16 == 1 ? (W(1) << ((h >> 8) % 21)) : (h % 40 == 2 ? 1000 + W((h >> 8) % 9000) : 1 + W((h >> 8) % 40)));
+            cur += g; keys.push_back(cur);
+        }
+        if (cur > hi) return false;
+        for (size_t i = 0; i < keys.size(); ++i) if (i == 0 || keys[i] != keys[i - 1]) focus.push_back(i);
     } else if (f.kind == "unitop") {
         // 50..649 keys drawn (by a hash of `word`) uniformly from the 1000..20999 values just below the reserved one, the largest valid
         // key included: dense irregular data with many duplicates whose closing points sit next to the reserved value.
